@@ -304,6 +304,14 @@ pub fn mutate(args: &str, item_src: &str, donors: &[(String, String)], rng: &mut
                 edit_punct(&mut e.variants, op, rng);
             }
         }
+        7 if matches!(&item, syn::Item::Impl(_)) && rng.below(4) == 0 => {
+            // impl items: an unusual self type (`for W<Self>`, `for &Self`, `for (u8, Self)`, a trait object ..)
+            if let syn::Item::Impl(im) = &mut item {
+                if let Some(t) = odd_type(rng) {
+                    *im.self_ty = t;
+                }
+            }
+        }
         7 if matches!(&item, syn::Item::Impl(_)) && rng.below(2) == 0 => {
             // impl items: edit the generic arguments of the trait path (`Add<X>` -> `Add<>`, `Add<X, X>`, ..) or drop them
             if let syn::Item::Impl(im) = &mut item {
@@ -419,7 +427,8 @@ pub fn mutate(args: &str, item_src: &str, donors: &[(String, String)], rng: &mut
 fn odd_type(rng: &mut Rng) -> Option<syn::Type> {
     let pool = ["dyn A + Send", "dyn A", "&'a (dyn A + Send)", "impl A + Send", "fn(u8) -> u8", "[u8]", "str", "(u8, Self)", "()", "!", "*const Self",
         "[T; N]", "[u8; { 1 + 2 }]", "<T as Tr>::A", "T::A", "::std::vec::Vec<T>", "m!()", "_", "&'static mut [Self]", "Box<dyn Fn(&T) -> T + Send + 'static>",
-        "for<'x> fn(&'x u8) -> &'x u8", "(dyn A + Send)", "Option<Self>", "Buf<u8, 4>", "It<Item = u8>", "r#type", "Self", "&Self", "dyn for<'x> Tr<'x> + 'a"];
+        "for<'x> fn(&'x u8) -> &'x u8", "(dyn A + Send)", "Option<Self>", "Buf<u8, 4>", "It<Item = u8>", "r#type", "Self", "&Self", "dyn for<'x> Tr<'x> + 'a",
+        "W<Self>", "(Self,)", "dyn Tr + 'a", "dyn Tr + 'static", "&'a mut Self", "Box<W<Self>>"];
     syn::parse_str::<syn::Type>(pool[rng.below(pool.len())]).ok()
 }
 
